@@ -450,6 +450,22 @@ class ExprCanon(ast.NodeTransformer):
                 return _loc(ast.Attribute(value=node.args[0], attr=f0.args[0].value, ctx=ast.Load()), node)
             if gname == "methodcaller" and f0.args and isinstance(f0.args[0], ast.Constant) and isinstance(f0.args[0].value, str) and f0.args[0].value.isidentifier():
                 return _loc(ast.Call(func=_loc(ast.Attribute(value=node.args[0], attr=f0.args[0].value, ctx=ast.Load()), node), args=list(f0.args[1:]), keywords=[]), node)
+        # operator.add(a, b) is a + b (and the other binary operators), so that a reduce over them reads as arithmetic
+        if len(node.args) == 2 and not node.keywords and not any(isinstance(x, ast.Starred) for x in node.args):
+            oname = f0.id if isinstance(f0, ast.Name) and f0.id in _OPERATOR_IMPORTED[0] else (f0.attr if isinstance(f0, ast.Attribute) and isinstance(f0.value, ast.Name) and f0.value.id == "operator" else None)
+            ops = {"add": ast.Add, "sub": ast.Sub, "mul": ast.Mult, "truediv": ast.Div, "floordiv": ast.FloorDiv, "mod": ast.Mod, "pow": ast.Pow, "xor": ast.BitXor, "or_": ast.BitOr, "and_": ast.BitAnd, "lshift": ast.LShift, "rshift": ast.RShift, "ixor": ast.BitXor, "ior": ast.BitOr, "iand": ast.BitAnd, "iadd": ast.Add, "imul": ast.Mult}
+            if oname in ops:
+                return _loc(ast.BinOp(left=node.args[0], op=ops[oname](), right=node.args[1]), node)
+            if oname == "contains":
+                return _loc(ast.Compare(left=node.args[1], ops=[ast.In()], comparators=[node.args[0]]), node)
+            if oname == "getitem":
+                return _loc(ast.Subscript(value=node.args[0], slice=node.args[1], ctx=ast.Load()), node)
+        # x.to_bytes(length=a, byteorder=b, ..) -> x.to_bytes(a, b, ..)   (the two leading parameters by position)
+        if isinstance(f0, ast.Attribute) and f0.attr == "to_bytes" and node.keywords and not node.args:
+            kw = {k.arg: k.value for k in node.keywords if k.arg}
+            if "length" in kw and "byteorder" in kw:
+                node.args = [kw["length"], kw["byteorder"]]
+                node.keywords = [k for k in node.keywords if k.arg not in ("length", "byteorder")]
         # typing.cast(T, e) is e
         if len(node.args) == 2 and not node.keywords and ((isinstance(f0, ast.Name) and f0.id in _CAST_NAMES[0]) or (isinstance(f0, ast.Attribute) and f0.attr == "cast" and isinstance(f0.value, ast.Name) and f0.value.id in _CAST_NAMES[1])):
             return node.args[1]
@@ -468,6 +484,13 @@ class ExprCanon(ast.NodeTransformer):
             call = self.visit(_loc(ast.Call(func=node.args[0], args=[_loc(ast.Name(id=var, ctx=ast.Load()), node)], keywords=[]), node))
             gen = ast.comprehension(target=_loc(ast.Name(id=var, ctx=ast.Store()), node), iter=node.args[1], ifs=[], is_async=0)
             return _loc(ast.GeneratorExp(elt=call, generators=[gen]), node)
+        # filter(f, X) -> (_m for _m in X if f(_m));  filter(None, X) -> (_m for _m in X if _m)
+        if isinstance(f0, ast.Name) and f0.id == "filter" and len(node.args) == 2 and not node.keywords and (isinstance(node.args[0], (ast.Name, ast.Attribute, ast.Lambda)) or (isinstance(node.args[0], ast.Constant) and node.args[0].value is None) or (isinstance(node.args[0], ast.Call) and ast.unparse(node.args[0].func).split(".")[-1] in ("itemgetter", "attrgetter", "methodcaller", "partial") and not any(isinstance(x, (ast.Call, ast.NamedExpr)) for a_ in node.args[0].args for x in ast.walk(a_)))):
+            var = "_m"
+            ref = _loc(ast.Name(id=var, ctx=ast.Load()), node)
+            cond = ref if isinstance(node.args[0], ast.Constant) else self.visit(_loc(ast.Call(func=node.args[0], args=[_loc(ast.Name(id=var, ctx=ast.Load()), node)], keywords=[]), node))
+            gen = ast.comprehension(target=_loc(ast.Name(id=var, ctx=ast.Store()), node), iter=node.args[1], ifs=[cond], is_async=0)
+            return _loc(ast.GeneratorExp(elt=_loc(ast.Name(id=var, ctx=ast.Load()), node), generators=[gen]), node)
         # F([... for ...]) -> F(... for ...) for consumers of any iterable
         consumer = (isinstance(f0, ast.Name) and f0.id in ("set", "list", "tuple", "sorted", "sum", "dict", "frozenset", "max", "min")) or (isinstance(f0, ast.Attribute) and f0.attr == "join")
         lazy_ok = isinstance(f0, ast.Name) and f0.id in ("any", "all") and len(node.args) == 1 and isinstance(node.args[0], ast.ListComp) and not _has_call(node.args[0].elt)
@@ -490,7 +513,7 @@ class ExprCanon(ast.NodeTransformer):
                 for c in g.ifs:
                     # all(E for v in T if c)  ==  all(not c or E);  any(E .. if c)  ==  any(c and E)
                     elt = _loc(ast.BoolOp(op=ast.And(), values=[c, elt]), node) if f0.id == "any" else _loc(ast.BoolOp(op=ast.Or(), values=[negate(copy.deepcopy(c)), elt]), node)
-                if rows is not None and all(r is not None and all(_atomic_row(x) or (isinstance(x, (ast.Tuple, ast.List)) and all(_atomic_row(y) for y in x.elts)) for x in r) for r in rows) and not any(isinstance(n, (ast.Lambda, ast.NamedExpr)) for n in ast.walk(elt)) and not any(isinstance(n, ast.Name) and n.id in names and isinstance(n.ctx, ast.Store) for n in ast.walk(elt)):
+                if rows is not None and all(r is not None and all(_atomic_row(x) or _pure_lookup(x) or (isinstance(x, (ast.Tuple, ast.List)) and all(_atomic_row(y) for y in x.elts)) for x in r) for r in rows) and not any(isinstance(n, (ast.Lambda, ast.NamedExpr)) for n in ast.walk(elt)) and not any(isinstance(n, ast.Name) and n.id in names and isinstance(n.ctx, ast.Store) for n in ast.walk(elt)):
                     # any / all answer True or False: each row's value is taken as a boolean (`bool(..)` unless it is one)
                     parts = [_as_bool(self.visit(ast.fix_missing_locations(_SubstNames(dict(zip(names, r))).visit(copy.deepcopy(elt))))) for r in rows]
                     new = parts[0] if len(parts) == 1 else _loc(ast.BoolOp(op=ast.Or() if f0.id == "any" else ast.And(), values=parts), node)
@@ -561,6 +584,150 @@ def _exits(stmts):
             return True
         return (_exits(last.body) or _exits(last.orelse)) and all(_exits(h.body) for h in last.handlers)
     return False
+
+
+def _expand_next_search(stmts, fn_names):
+    """`v = next((E for T in X if C), D)`  ->  `for T in X: if C: v = E; break` + `else: v = D`   (also `return next(..)`,
+    and `next(chain(G1, G2), D)`: the second search in the `else` of the first).  The comprehension variables become
+    locals of the function: only when the function does not use those names elsewhere."""
+    out = []
+    for s in stmts:
+        v = getattr(s, "value", None)
+        if isinstance(s, (ast.Assign, ast.Return)) and isinstance(v, ast.Call) and isinstance(v.func, ast.Name) and v.func.id == "next" and len(v.args) == 2 and not v.keywords:
+            if isinstance(s, ast.Assign) and not (len(s.targets) == 1 and isinstance(s.targets[0], ast.Name)):
+                out.append(s)
+                continue
+            src = v.args[0]
+            gens = None
+            if isinstance(src, ast.GeneratorExp):
+                gens = [src]
+            elif isinstance(src, ast.Call) and ast.unparse(src.func).split(".")[-1] == "chain" and src.args and not src.keywords and all(isinstance(a, ast.GeneratorExp) for a in src.args):
+                gens = list(src.args)
+            if gens and all(len(g.generators) == 1 and not g.generators[0].is_async for g in gens):
+                tnames = [x.id for g in gens for x in ast.walk(g.generators[0].target) if isinstance(x, ast.Name)]
+                clash = {t for t in tnames if fn_names.get(t, 0) > sum(1 for g in gens for x in ast.walk(g) if isinstance(x, ast.Name) and x.id == t)}
+                if clash and not any(isinstance(x, (ast.Lambda, ast.GeneratorExp, ast.ListComp, ast.SetComp, ast.DictComp, ast.NamedExpr)) for g in gens for x in ast.walk(g) if x is not g):
+                    # the comprehension variables are renamed apart from the function's own names (a comprehension has its
+                    # own scope: any consistent renaming of its variables is the same comprehension)
+                    ren = {t: f"{t}__g" for t in clash}
+                    while any(fn_names.get(v_, 0) for v_ in ren.values()):
+                        ren = {t: v_ + "g" for t, v_ in ren.items()}
+                    for g in gens:
+                        # the first iterable is evaluated in the enclosing scope: not renamed
+                        it0 = g.generators[0].iter
+                        for x in ast.walk(g):
+                            if isinstance(x, ast.Name) and x.id in ren and not any(x is y for y in ast.walk(it0)):
+                                x.id = ren[x.id]
+                    clash = set()
+                if not clash and not any(isinstance(x, (ast.Lambda, ast.GeneratorExp, ast.ListComp, ast.SetComp, ast.DictComp, ast.NamedExpr)) for g in gens for x in ast.walk(g) if x is not g):
+                    def mk(val, at):
+                        if isinstance(s, ast.Assign):
+                            return _loc(ast.Assign(targets=copy.deepcopy(s.targets), value=val), at)
+                        return _loc(ast.Return(value=val), at)
+
+                    tail = [mk(v.args[1], s)]
+                    for g in reversed(gens):
+                        c = g.generators[0]
+                        hit = [mk(g.elt, g)] + ([] if isinstance(s, ast.Return) else [_loc(ast.Break(), g)])
+                        body = hit
+                        if c.ifs:
+                            test = c.ifs[0] if len(c.ifs) == 1 else _loc(ast.BoolOp(op=ast.And(), values=list(c.ifs)), g)
+                            body = [_loc(ast.If(test=test, body=hit, orelse=[]), g)]
+                        loop = _loc(ast.For(target=c.target, iter=c.iter, body=body, orelse=tail if not isinstance(s, ast.Return) else [], type_comment=None), g)
+                        _set_store(loop.target)
+                        tail = [loop] if not isinstance(s, ast.Return) else [loop] + tail
+                    for x in tail:
+                        ast.fix_missing_locations(x)
+                    out.extend(tail)
+                    continue
+        out.append(s)
+    return out
+
+
+def _set_store(t):
+    for x in ast.walk(t):
+        if isinstance(x, (ast.Name, ast.Tuple, ast.List, ast.Starred)):
+            x.ctx = ast.Store()
+
+
+def _expand_reduce(stmts):
+    """`v = reduce(F, X, I)`  ->  `v = I; for _r in X: v = F(v, _r)`   (F a name, attribute, lambda or operator function;
+    `return reduce(..)` through a temporary)"""
+    out = []
+    for s in stmts:
+        v = getattr(s, "value", None)
+        if isinstance(s, (ast.Assign, ast.Return)) and isinstance(v, ast.Call) and ast.unparse(v.func) in ("reduce", "functools.reduce") and len(v.args) == 3 and not v.keywords and isinstance(v.args[0], (ast.Name, ast.Attribute, ast.Lambda)):
+            if isinstance(s, ast.Assign) and not (len(s.targets) == 1 and isinstance(s.targets[0], ast.Name)):
+                out.append(s)
+                continue
+            acc = s.targets[0].id if isinstance(s, ast.Assign) else "reduce__acc"
+            if any(isinstance(x, ast.Name) and x.id == acc for a in v.args for x in ast.walk(a)):
+                out.append(s)
+                continue
+            init = _loc(ast.Assign(targets=[_loc(ast.Name(id=acc, ctx=ast.Store()), s)], value=v.args[2]), s)
+            step = ExprCanon().visit(_loc(ast.Call(func=v.args[0], args=[_loc(ast.Name(id=acc, ctx=ast.Load()), s), _loc(ast.Name(id="_r", ctx=ast.Load()), s)], keywords=[]), s))
+            loop = _loc(ast.For(target=_loc(ast.Name(id="_r", ctx=ast.Store()), s), iter=v.args[1], body=[_loc(ast.Assign(targets=[_loc(ast.Name(id=acc, ctx=ast.Store()), s)], value=step), s)], orelse=[], type_comment=None), s)
+            new = [init, loop] + ([_loc(ast.Return(value=_loc(ast.Name(id=acc, ctx=ast.Load()), s)), s)] if isinstance(s, ast.Return) else [])
+            for x in new:
+                ast.fix_missing_locations(x)
+            out.extend(new)
+            continue
+        out.append(s)
+    return out
+
+
+def _loop_over_filter(s):
+    """`for T in (V for V in X if C): S`  ->  `for T in X: if C[V := T]: S`   (V[i] becomes the i-th name of a tuple target)"""
+    it = s.iter
+    if not (isinstance(it, ast.GeneratorExp) and len(it.generators) == 1 and not it.generators[0].is_async and isinstance(it.generators[0].target, ast.Name) and isinstance(it.elt, ast.Name) and it.elt.id == it.generators[0].target.id and it.generators[0].ifs and not s.orelse):
+        return s
+    g = it.generators[0]
+    V = g.target.id
+    T = s.target
+    if any(isinstance(x, (ast.Lambda, ast.GeneratorExp, ast.ListComp, ast.SetComp, ast.DictComp, ast.NamedExpr)) for c in g.ifs for x in ast.walk(c)):
+        return s
+
+    class R(ast.NodeTransformer):
+        ok = True
+
+        def visit_Subscript(self, n):
+            if isinstance(n.value, ast.Name) and n.value.id == V and isinstance(n.ctx, ast.Load) and isinstance(T, ast.Tuple) and isinstance(n.slice, ast.Constant) and isinstance(n.slice.value, int) and 0 <= n.slice.value < len(T.elts) and isinstance(T.elts[n.slice.value], ast.Name):
+                return _loc(ast.Name(id=T.elts[n.slice.value].id, ctx=ast.Load()), n)
+            self.generic_visit(n)
+            return n
+
+        def visit_Name(self, n):
+            if n.id == V and isinstance(n.ctx, ast.Load):
+                if isinstance(T, ast.Name):
+                    return _loc(ast.Name(id=T.id, ctx=ast.Load()), n)
+                R.ok = False
+            return n
+
+    R.ok = True
+    conds = [R().visit(copy.deepcopy(c)) for c in g.ifs]
+    if not R.ok:
+        return s
+    test = conds[0] if len(conds) == 1 else _loc(ast.BoolOp(op=ast.And(), values=conds), s)
+    new = _loc(ast.For(target=s.target, iter=g.iter, body=[_loc(ast.If(test=test, body=s.body, orelse=[]), s)], orelse=[], type_comment=None), s)
+    ast.fix_missing_locations(new)
+    return new
+
+
+def _split_dict_merge(stmts):
+    """`v = <fresh dict> | {k1: e1, ..}` (constant keys)  ->  `v = <fresh dict>; v[k1] = e1; ..`  (the dict on the left is a
+    comprehension, a display or `dict(..)`: nobody else holds it, updating it in place is the merge)"""
+    out = []
+    for s in stmts:
+        v = getattr(s, "value", None)
+        if isinstance(s, ast.Assign) and len(s.targets) == 1 and isinstance(s.targets[0], ast.Name) and isinstance(v, ast.BinOp) and isinstance(v.op, ast.BitOr) and isinstance(v.right, ast.Dict) and v.right.keys and all(k is not None and isinstance(k, ast.Constant) for k in v.right.keys) and (isinstance(v.left, (ast.DictComp, ast.Dict)) or (isinstance(v.left, ast.Call) and isinstance(v.left.func, ast.Name) and v.left.func.id == "dict")):
+            name = s.targets[0].id
+            if not any(isinstance(n, ast.Name) and n.id == name for e in v.right.values for n in ast.walk(e)):
+                out.append(_loc(ast.Assign(targets=s.targets, value=v.left), s))
+                for k, e in zip(v.right.keys, v.right.values):
+                    out.append(_loc(ast.Assign(targets=[_loc(ast.Subscript(value=_loc(ast.Name(id=name, ctx=ast.Load()), s), slice=k, ctx=ast.Store()), s)], value=e), s))
+                continue
+        out.append(s)
+    return out
 
 
 def _fold_dict_stores(stmts):
@@ -690,22 +857,80 @@ def _strip_annotations(stmts):
     return out or ([_loc(ast.Pass(), stmts[0])] if stmts else [])
 
 
+def _leading_walrus(e):
+    """the `(x := E)` of a test that is evaluated before anything with an effect and unconditionally: (node, parent,
+    field, index) or None"""
+    def pure(n):
+        return not any(isinstance(x, (ast.Call, ast.NamedExpr, ast.Yield, ast.YieldFrom, ast.Await, ast.Subscript, ast.BinOp, ast.Compare)) for x in ast.walk(n))
+
+    def go(n):
+        # children in evaluation order, only those evaluated unconditionally
+        if isinstance(n, ast.NamedExpr):
+            return n if isinstance(n.target, ast.Name) else None
+        if isinstance(n, ast.BoolOp):
+            kids = [n.values[0]]
+        elif isinstance(n, ast.Compare):
+            kids = [n.left, n.comparators[0]]
+        elif isinstance(n, ast.Call):
+            kids = [n.func] + list(n.args) + [k.value for k in n.keywords]
+        elif isinstance(n, ast.BinOp):
+            kids = [n.left, n.right]
+        elif isinstance(n, ast.UnaryOp):
+            kids = [n.operand]
+        elif isinstance(n, ast.Subscript):
+            kids = [n.value, n.slice]
+        elif isinstance(n, ast.Attribute):
+            kids = [n.value]
+        elif isinstance(n, ast.Starred):
+            kids = [n.value]
+        else:
+            return None
+        for k in kids:
+            if any(isinstance(x, ast.NamedExpr) for x in ast.walk(k)):
+                return go(k)
+            if not pure(k):
+                return None
+        return None
+
+    return go(e)
+
+
 def _expand_walrus(stmts):
     """`if (x := E): S` -> `x = E; if x: S`;  `if A and (x := E) and B: S` (no else) -> `if A: x = E; if x and B: S`"""
     out = []
     for s in stmts:
+        if isinstance(s, ast.If) and sum(1 for n in ast.walk(s.test) if isinstance(n, ast.NamedExpr)) == 1:
+            w = _leading_walrus(s.test)
+            if w is not None and not (isinstance(s.test, ast.NamedExpr)) and not (isinstance(s.test, ast.BoolOp) and any(x is w for x in s.test.values)):
+                # evaluated first and unconditionally: `x = E` in front of the statement, the name in its place
+                asg = _loc(ast.Assign(targets=[_loc(ast.Name(id=w.target.id, ctx=ast.Store()), w)], value=w.value), w)
+
+                class R(ast.NodeTransformer):
+                    def visit_NamedExpr(self, n):
+                        if n is w:
+                            return _loc(ast.Name(id=w.target.id, ctx=ast.Load()), w)
+                        return n
+
+                s.test = R().visit(s.test)
+                out.extend([asg, s])
+                continue
         if isinstance(s, ast.If):
             t = s.test
             conj = list(t.values) if isinstance(t, ast.BoolOp) and isinstance(t.op, ast.And) else [t]
             idx = [i for i, c in enumerate(conj) if isinstance(c, ast.NamedExpr) and isinstance(c.target, ast.Name)]
-            others = sum(1 for c in conj for n in ast.walk(c) if isinstance(n, ast.NamedExpr)) - len(idx)
-            if len(idx) == 1 and others == 0 and (idx[0] == 0 or not s.orelse):
+            # the first walrus conjunct, nothing with a walrus in front of it: later ones are expanded in the inner `if`
+            before_first = sum(1 for c in conj[:idx[0]] for n in ast.walk(c) if isinstance(n, ast.NamedExpr)) if idx else 0
+            inner_walrus = sum(1 for n in ast.walk(conj[idx[0]].value) if isinstance(n, ast.NamedExpr)) if idx else 0
+            if idx and before_first == 0 and inner_walrus == 0 and (idx[0] == 0 and (len(idx) == 1 or not s.orelse) or not s.orelse):
                 i = idx[0]
                 w = conj[i]
                 asg = _loc(ast.Assign(targets=[_loc(ast.Name(id=w.target.id, ctx=ast.Store()), w)], value=w.value), w)
                 rest = [_loc(ast.Name(id=w.target.id, ctx=ast.Load()), w)] + conj[i + 1:]
                 inner_test = rest[0] if len(rest) == 1 else _loc(ast.BoolOp(op=ast.And(), values=rest), t)
                 inner = _loc(ast.If(test=inner_test, body=s.body, orelse=s.orelse), s)
+                if any(isinstance(n, ast.NamedExpr) for n in ast.walk(inner_test)):
+                    inner_l = _expand_walrus([inner])
+                    inner = inner_l[0] if len(inner_l) == 1 else _loc(ast.If(test=_loc(ast.Constant(value=True), s), body=inner_l, orelse=[]), s)
                 if i == 0:
                     out.extend([asg, inner])
                 else:
@@ -844,6 +1069,23 @@ def _as_bool(e):
     if isinstance(e, ast.BoolOp):
         return _loc(ast.BoolOp(op=e.op, values=[_as_bool(v) for v in e.values]), e)
     return _loc(ast.Call(func=_loc(ast.Name(id="bool", ctx=ast.Load()), e), args=[e], keywords=[]), e)
+
+
+def _pure_lookup(e):
+    """names, constants, subscripts / attributes of them and the string methods that only compute a new string: evaluating
+    such a row later, or not at all, cannot be told from evaluating it first (a row that raises raises for the first
+    row's own sub-expression already)"""
+    if isinstance(e, (ast.Name, ast.Constant)):
+        return True
+    if isinstance(e, ast.Attribute):
+        return _pure_lookup(e.value)
+    if isinstance(e, ast.Subscript):
+        return _pure_lookup(e.value) and _pure_lookup(e.slice)
+    if isinstance(e, ast.UnaryOp) and isinstance(e.op, ast.USub):
+        return _pure_lookup(e.operand)
+    if isinstance(e, ast.Call) and isinstance(e.func, ast.Attribute) and e.func.attr in ("rsplit", "split", "rpartition", "partition", "lower", "upper", "strip", "lstrip", "rstrip", "removeprefix", "removesuffix") and not e.keywords:
+        return _pure_lookup(e.func.value) and all(_pure_lookup(a) for a in e.args)
+    return False
 
 
 def _atomic_row(e):
@@ -1142,6 +1384,10 @@ def canon_block(stmts):
     stmts = _expand_walrus(stmts)
     stmts = _expand_ifexp(stmts)
     stmts = _split_tuple_assigns(stmts)
+    stmts = _split_dict_merge(stmts)
+    if any(isinstance(getattr(x, "value", None), ast.Call) and ast.unparse(x.value.func) in ("next", "reduce", "functools.reduce") for x in stmts):
+        stmts = _expand_next_search(stmts, _FN_NAME_COUNTS[-1] if _FN_NAME_COUNTS else {})
+        stmts = [canon_stmt(x) if isinstance(x, ast.For) else x for x in _expand_reduce(stmts)]
     stmts = _fold_dict_stores(stmts)
     stmts = _fold_list_appends(stmts)
     stmts = _table_dispatch_var(stmts)
@@ -1474,6 +1720,19 @@ def _apply_local_partials(fnode):
         if len(st) != 1 or name in params:
             continue
         asg = pm.get(id(st[0]))
+        if isinstance(asg, ast.Assign) and len(asg.targets) == 1 and asg.targets[0] is st[0] and isinstance(asg.value, ast.Call) and ast.unparse(asg.value.func).split(".")[-1] in ("itemgetter", "attrgetter", "methodcaller") and not asg.value.keywords and asg.value.args and all(isinstance(x, ast.Constant) for x in asg.value.args):
+            # g = methodcaller('m'): every call g(x) is methodcaller('m')(x), which the expression form folds
+            loads_ = [n for n in nodes if isinstance(n.ctx, ast.Load)]
+            if loads_ and all(isinstance(pm.get(id(n)), ast.Call) and pm[id(n)].func is n for n in loads_) and not any(isinstance(x, (ast.FunctionDef, ast.AsyncFunctionDef, ast.Lambda)) and x is not fnode and any(isinstance(y, ast.Name) and y.id == name for y in ast.walk(x)) for x in ast.walk(fnode)):
+                for n in loads_:
+                    pm[id(n)].func = copy.deepcopy(asg.value)
+                blk_ = pm.get(id(asg))
+                for f_ in ("body", "orelse", "finalbody"):
+                    l_ = getattr(blk_, f_, None)
+                    if isinstance(l_, list) and any(x is asg for x in l_):
+                        l_[:] = [x for x in l_ if x is not asg] or [_loc(ast.Pass(), asg)]
+                changed = True
+            continue
         if not (isinstance(asg, ast.Assign) and len(asg.targets) == 1 and asg.targets[0] is st[0] and _is_partial(asg.value)):
             continue
         p = asg.value
@@ -1482,7 +1741,16 @@ def _apply_local_partials(fnode):
             continue
         used = {x.id for b_ in bound for x in ast.walk(b_) if isinstance(x, ast.Name)}
         if any(stored.get(u, 0) > (0 if u in params else 1) for u in used) or any(stored.get(u, 0) and u in params for u in used):
-            continue
+            # .. unless nothing the partial binds is stored between its creation and the end of the block that holds
+            # both the creation and every use
+            blk = pm.get(id(asg))
+            lst = next((getattr(blk, f_) for f_ in ("body", "orelse", "finalbody") if isinstance(getattr(blk, f_, None), list) and any(x is asg for x in getattr(blk, f_))), None)
+            if lst is None:
+                continue
+            after = lst[[i for i, x in enumerate(lst) if x is asg][0] + 1:]
+            inside = {id(n) for st_ in after for n in ast.walk(st_)}
+            if any(isinstance(n.ctx, ast.Load) and id(n) not in inside for n in nodes) or any(isinstance(n, ast.Name) and n.id in used and isinstance(n.ctx, (ast.Store, ast.Del)) for st_ in after for n in ast.walk(st_)):
+                continue
         loads = [n for n in nodes if isinstance(n.ctx, ast.Load)]
         if not loads or any(not (isinstance(pm.get(id(n)), ast.Call) and pm[id(n)].func is n) for n in loads):
             continue
@@ -2160,7 +2428,26 @@ def swap_if(s):
     return s
 
 
+_FN_NAME_COUNTS = []
+
+
 def canon_stmt(s):
+    if isinstance(s, (ast.FunctionDef, ast.AsyncFunctionDef)):
+        cnt = {}
+        for n in ast.walk(s):
+            if isinstance(n, ast.Name):
+                cnt[n.id] = cnt.get(n.id, 0) + 1
+            elif isinstance(n, ast.arg):
+                cnt[n.arg] = cnt.get(n.arg, 0) + 1
+        _FN_NAME_COUNTS.append(cnt)
+        try:
+            return _canon_stmt_fn(s)
+        finally:
+            _FN_NAME_COUNTS.pop()
+    return _canon_stmt(s)
+
+
+def _canon_stmt_fn(s):
     if isinstance(s, (ast.FunctionDef, ast.AsyncFunctionDef)):
         _CLOSURE_NAMES.append({x.id for n in ast.walk(s) if n is not s and isinstance(n, (ast.FunctionDef, ast.AsyncFunctionDef, ast.Lambda)) for x in ast.walk(n) if isinstance(x, ast.Name)})
         try:
@@ -2261,6 +2548,23 @@ def _subst_pure_walrus(fnode):
 
 def _canon_function(s):
     _subst_pure_walrus(s)
+    # a keyword-only marker on a private function only restricts how it may be called: for the analysis the parameters
+    # are ordinary ones (every call site of a valid program passes them by name)
+    a = s.args
+    if s.name.startswith("_") and not s.name.startswith("__") and a.kwonlyargs and a.vararg is None:
+        n_pos_defaults = len(a.defaults)
+        if all(d is not None for d in a.kw_defaults) or n_pos_defaults == 0:
+            a.args = list(a.args) + list(a.kwonlyargs)
+            if any(d is not None for d in a.kw_defaults):
+                # defaults align with the tail of the parameter list: pad the keyword-only ones without default
+                firstd = next(i for i, d in enumerate(a.kw_defaults) if d is not None)
+                if all(d is not None for d in a.kw_defaults[firstd:]) and (n_pos_defaults == 0 or firstd == 0):
+                    a.defaults = list(a.defaults) + [d for d in a.kw_defaults[firstd:]]
+                    a.kwonlyargs, a.kw_defaults = [], []
+                else:
+                    a.args = a.args[: len(a.args) - len(a.kwonlyargs)]
+            else:
+                a.kwonlyargs, a.kw_defaults = [], []
     return _canon_stmt(s)
 
 
@@ -2272,7 +2576,7 @@ def _canon_stmt(s):
         if not _returns_value(s):
             s.body = canon_block(_strip_tail_returns(s.body))
         if _apply_local_partials(s):
-            s.body = canon_block(s.body)
+            s.body = canon_block([ExprCanon().visit(x) for x in s.body])
         if _scalarise_local_tuples(s):
             s.body = canon_block(s.body)
         if _reuse_bound_subscripts(s):
@@ -2289,6 +2593,11 @@ def _canon_stmt(s):
         s.body = canon_block(s.body)
         s.orelse = canon_block(s.orelse)
     elif isinstance(s, (ast.For, ast.AsyncFor, ast.While)):
+        if isinstance(s, ast.For):
+            # for T in iter(X)  ==  for T in X
+            if isinstance(s.iter, ast.Call) and isinstance(s.iter.func, ast.Name) and s.iter.func.id == "iter" and len(s.iter.args) == 1 and not s.iter.keywords:
+                s.iter = s.iter.args[0]
+            s = _loop_over_filter(s)
         s.body = canon_block(s.body)
         s.body = canon_block(_strip_tail_continue(s.body))
         s.orelse = canon_block(s.orelse)
@@ -2531,6 +2840,7 @@ def _fold_table_comprehensions(tree):
     return tree
 
 
+_OPERATOR_IMPORTED = [set()]  # names imported from the operator module in the tree being canonicalised
 _CAST_NAMES = [set(), set()]  # names bound to typing.cast / to the typing module in the tree being canonicalised
 
 
@@ -2552,16 +2862,40 @@ class _MatchToIf(ast.NodeTransformer):
             parts = [self._test(subj, q) for q in pat.patterns]
             if any(x is None for x in parts):
                 return None
+            if any(x is True for x in parts):
+                return True
             return _loc(ast.BoolOp(op=ast.Or(), values=parts), pat)
         if isinstance(pat, ast.MatchAs) and pat.pattern is None and pat.name is None:
             return True
+        if isinstance(pat, ast.MatchSequence) and isinstance(subj, ast.Tuple) and len(pat.patterns) == len(subj.elts) and not any(isinstance(q, ast.MatchStar) for q in pat.patterns):
+            # the subject is a display of that many elements: the sequence pattern is the conjunction of its parts
+            parts = [self._test(e, q) for e, q in zip(subj.elts, pat.patterns)]
+            if any(x is None for x in parts):
+                return None
+            parts = [x for x in parts if x is not True]
+            if not parts:
+                return True
+            return parts[0] if len(parts) == 1 else _loc(ast.BoolOp(op=ast.And(), values=parts), pat)
         return None
 
     def visit_Match(self, node):
         self.generic_visit(node)
         pre = []
         subj = node.subject
-        if not isinstance(subj, ast.Name):
+        if isinstance(subj, ast.Tuple) and all(isinstance(e, ast.Name) for e in subj.elts):
+            pass
+        elif isinstance(subj, ast.Tuple) and not any(isinstance(e, ast.Starred) for e in subj.elts):
+            elts = []
+            for e in subj.elts:
+                if isinstance(e, ast.Name):
+                    elts.append(e)
+                else:
+                    self._n[0] += 1
+                    nm = f"match__s{self._n[0]}"
+                    pre.append(_loc(ast.Assign(targets=[_loc(ast.Name(id=nm, ctx=ast.Store()), node)], value=e), node))
+                    elts.append(_loc(ast.Name(id=nm, ctx=ast.Load()), node))
+            subj = _loc(ast.Tuple(elts=elts, ctx=ast.Load()), node)
+        elif not isinstance(subj, ast.Name):
             if any(isinstance(x, (ast.Call, ast.NamedExpr, ast.Yield, ast.Await)) for x in ast.walk(subj)) or True:
                 self._n[0] += 1
                 nm = f"match__s{self._n[0]}"
@@ -2591,6 +2925,7 @@ def _canonicalise_once(tree):
         tree = _MatchToIf().visit(tree)
         ast.fix_missing_locations(tree)
     _CAST_NAMES[0], _CAST_NAMES[1] = set(), set()
+    _OPERATOR_IMPORTED[0] = {a.asname or a.name for n in ast.walk(tree) if isinstance(n, ast.ImportFrom) and n.module == "operator" and n.level == 0 for a in n.names if a.asname is None}
     for n in ast.walk(tree):
         if isinstance(n, ast.ImportFrom) and n.module in ("typing", "typing_extensions") and n.level == 0:
             _CAST_NAMES[0] |= {a.asname or a.name for a in n.names if a.name == "cast"}
